@@ -1689,3 +1689,28 @@ package ion
 //@ invariant loop0 [syms []string] len(syms) == vcCalls("Reader.Next")
 //@ ensures[C05,C10] err == nil && r.Type() == ListType ==> len(result)+1 == vcCalls("Reader.Next")
 //@ safe[C06,C10]
+
+// The serialised local symbol table declares every import after the system table with its
+// name, version and max_id, and every local symbol, in order, none skipped (C11).
+//@ interface SharedSymbolTable.MaxID
+//@ pure
+
+//@ func NewSymbolToken
+//@ trusted thin: called by contract
+//@ modifies nothing
+
+//@ func (*lst).WriteTo
+//@ split returns
+//@ requires w != nil && lstWF(t)
+//@ modifies *
+//@ counts Writer.WriteString
+//@ counts Writer.WriteUint
+//@ invariant[C11] loop0 [i int] 1 <= i && i <= len(t.imports) && vcCalls("Writer.WriteString") == i-1 && vcCalls("Writer.WriteUint") == i-1
+//@ invariant[C11] loop1 [idx_ int] -1 <= idx_ && idx_ < len(t.symbols) && vcCalls("Writer.WriteString") == specDeclaredImports(t)+idx_+1 && vcCalls("Writer.WriteUint") == specDeclaredImports(t)
+//@ atcall[C11] Writer.WriteString#0 :: Writer, string :: [imp SharedSymbolTable, i int] 1 <= i && i < len(t.imports) && imp == t.imports[i] && a1 == imp.Name()
+//@ atcall[C11] Writer.WriteInt :: Writer, int64 :: [imp SharedSymbolTable] a1 == int64(imp.Version())
+//@ atcall[C11] Writer.WriteUint :: Writer, uint64 :: [imp SharedSymbolTable] a1 == imp.MaxID()
+//@ atcall[C11] Writer.WriteString#1 :: Writer, string :: [sym string] a1 == sym && vcCalls("Writer.WriteString") >= specDeclaredImports(t) &&
+//@    vcCalls("Writer.WriteString")-specDeclaredImports(t) < len(t.symbols) && sym == t.symbols[vcCalls("Writer.WriteString")-specDeclaredImports(t)]
+//@ ensures[C11] err == nil && !(len(t.imports) == 1 && len(t.symbols) == 0) ==> vcCalls("Writer.WriteString") == specDeclaredImports(t)+len(t.symbols) && vcCalls("Writer.WriteUint") == specDeclaredImports(t)
+//@ safe[C06,C11]
